@@ -32,30 +32,39 @@ class _Settings:
 
 
 import copy
-# what the worker hands to the library for the settings object of its chunk - established by harness/C19.py (run_dataflow) on the
-# real cli._process_hvsr: the chunk's own object ("0") or a private copy per file ("1")
-WORKER_COPIES = os.environ.get("XH_WORKER_COPIES", "0") == "1"
+# what the worker hands to the library for the settings object of its chunk - established by harness/C19.py on the real
+# cli._process_hvsr: "0" the chunk's own object, "1" a private deep copy per file, "2" a copy that still shares nested objects
+WORKER_COPIES = os.environ.get("XH_WORKER_COPIES", "0")
 
 
-def chunk_fft_length(n1: int, n2: int) -> bool:
+def _handed(shared):
+    if WORKER_COPIES == "1":
+        return copy.deepcopy(shared)
+    if WORKER_COPIES == "2":
+        return copy.copy(shared)
+    return shared
+
+
+def chunk_fft_length(n1: int, n2: int, explicit: bool) -> bool:
     """
-    a file of n2 samples handled after a file of n1 samples in the same chunk gets the FFT length it gets alone
+    a file of n2 samples handled after a file of n1 samples in the same chunk gets the FFT length it gets alone - with the default
+    settings (fft_settings None) and with a settings file that carries an explicit fft_settings dictionary
     pre: 1 <= n1 <= 300000 and 1 <= n2 <= 300000
     post: _
     """
-    shared = _Settings(None)
-    P.prepare_fft_settings([_Rec(n1)], copy.deepcopy(shared) if WORKER_COPIES else shared)
-    second = copy.deepcopy(shared) if WORKER_COPIES else shared
+    mk = (lambda: _Settings({"n": 32768})) if explicit else (lambda: _Settings(None))
+    shared = mk()
+    P.prepare_fft_settings([_Rec(n1)], _handed(shared))
+    second = _handed(shared)
     P.prepare_fft_settings([_Rec(n2)], second)
-    shared = second
-    alone = _Settings(None)
+    alone = mk()
     P.prepare_fft_settings([_Rec(n2)], alone)
-    return shared.fft_settings["n"] == alone.fft_settings["n"]
+    return second.fft_settings["n"] == alone.fft_settings["n"]
 
 
-def chunk_fft_length_reach(n1: int, n2: int) -> bool:
+def chunk_fft_length_reach(n1: int, n2: int, explicit: bool) -> bool:
     """
     pre: 1 <= n1 <= 300000 and 1 <= n2 <= 300000
     post: False
     """
-    return chunk_fft_length(n1, n2)
+    return chunk_fft_length(n1, n2, explicit)
